@@ -819,6 +819,22 @@ class Gen:
         for cuts in segmentations(r, len(s), two_way=("all" if r.random() < (0.3 if quick else 1.0) else 3), kway=2):
             self.add("http", "-", [], s, cuts, label)
 
+    def http_long_lines(self):
+        """request lines and header lines far longer than any buffer-size or line-length constant one might add
+        (9000-byte path, 12000-byte header value, 70000-byte query), delivered whole and in chunks of 1000, 4096,
+        8191, 8192, 8193, 10000, 16384 bytes: segmentation invariance must not depend on how much of an
+        unterminated line is sitting in the buffer"""
+        r = self.rng
+        streams = [b"GET /" + b"p" * 9000 + b" HTTP/1.1\r\nHost: a\r\n\r\n",
+                   b"GET /x HTTP/1.1\r\nCookie: " + b"c" * 12000 + b"\r\nHost: a\r\n\r\n",
+                   b"GET /q?" + bytes(97 + (i % 26) for i in range(70000)) + b" HTTP/1.0\r\nX: 1\r\n\r\nGET / HTTP/1.1\r\n\r\n"]
+        for s in streams:
+            n = len(s)
+            self.add("http", "-", [], s, (), "http-long-line")
+            for k in (1000, 4096, 8191, 8192, 8193, 10000, 16384):
+                self.add("http", "-", [], s, tuple(range(k, n, k)), "http-long-line")
+            self.add("http", "-", [], s, (r.randrange(1, n),), "http-long-line")
+
     def http_random(self):
         r = self.rng
         alphabet = [b"\r", b"\n", b"\r\n", b" ", b":", b"?", b"GET", b"HTTP/1.1", b"HTTP/1.", b"1", b"0", b"/", b"a", b"\x00"]
@@ -950,6 +966,7 @@ def generate(rng, tier):
         g.old_cases(quick)
     for _ in range(120 if quick else 1500):
         g.http_cases(quick)
+    g.http_long_lines()
     for _ in range(150 if quick else 1500):
         g.http_random()
     for i in range(60 if quick else 1500):
